@@ -5,6 +5,7 @@ These properties quantify over EVERY market type under one Broker.  Each domain 
 (Inv_* / Act_* / P_* operators named after the property) and each domain runner has a `run_cross(chk, owner)` leg:
 
     leg        specification                     TLC configurations                           binding (spec -> code)
+    wallet     Wallet.tla via MC_Wallet          MC_Wallet_quick/thorough, DEV cfg            harness/wallet_cross.py (Broker / Asset.add / Asset.sub alone)
     uniswap    UniLp.tla via MC_UniLp            MC_UniLp_quick/ops3 + simulation             harness/uni_run.py  (real Actuator + UniLpMarket, both orientations)
     aave       Aave.tla via MC_Aave              MC_Aave_quick/bfs3 + simulation, DEV cfgs    harness/aave_run.py (AaveV3Market + Broker)
     squeeth    Squeeth.tla via MC_Squeeth        MC_Squeeth_cross/cross2/crosslive, DEV cfgs  harness/props/c14.py (SqueethMarket + UniLpMarket + Broker / Actuator)
@@ -26,7 +27,7 @@ import time
 
 from .common import Check
 
-LEGS = ("uniswap", "aave", "squeeth", "deribit", "gmx")
+LEGS = ("wallet", "uniswap", "aave", "squeeth", "deribit", "gmx")
 
 RULE = {
     "C01": "a case = one TLC behaviour of a market specification replayed into the real market under a real Broker; after every step "
@@ -42,6 +43,9 @@ RULE = {
 
 
 def _leg(name):
+    if name == "wallet":
+        from . import wallet_cross
+        return wallet_cross.run_cross
     if name == "uniswap":
         from . import uni_run
         return uni_run.run_cross
@@ -109,6 +113,10 @@ def replay(chk: Check, path: str, owner: str) -> int:
         from .props import c14
         c14.replay_cross(chk, r)
         return chk.finish("replay of one recorded Squeeth path")
+    if kind == "wallet_path":
+        from . import wallet_cross
+        wallet_cross.replay_cross(chk, r)
+        return chk.finish("replay of one recorded wallet path")
     if kind in ("deribit_cross_path", "deribit_cross_bars"):
         from . import deribit_cross
         deribit_cross.replay_cross(chk, r)
